@@ -39,6 +39,7 @@ func c11(c *core.Ctx) {
 	c.Rule("C11.step", "nextSequenceNumber stores sequenceNumber+1 and, on the wrap branch, a constant in [1,1024)", 2)
 	c.Rule("C11.chunks", "the first chunk's number comes from nextSequenceNumber in newMessage; every later chunk (index > 0, exactly) is renumbered from nextSequenceNumber before it is signed and written", 3)
 
+	giveBack := c11Consumed(c, nextSeq, connWrite, seqField)
 	fns := libFns(c)
 	// numlock + writelock
 	for _, f := range fns {
@@ -120,6 +121,29 @@ func c11(c *core.Ctx) {
 					continue
 				}
 				name := fname(f)
+				if giveBack[f] {
+					// the deferred give-back closure of a sending function (shape checked by C11.consumed)
+					// it runs at the exit of its parent, before every defer registered earlier (LIFO): the instance
+					// mutex is held there iff it is held where the closure is deferred and is only released by a defer
+					// (C11.nounlock) that was registered before it
+					ok := false
+					detail := "the closure is not deferred by its parent"
+					if par := f.Parent(); par != nil {
+						for _, call := range ssax.Calls(par) {
+							d, isDefer := call.(*ssa.Defer)
+							if !isDefer {
+								continue
+							}
+							if mc, isMC := d.Call.Value.(*ssa.MakeClosure); isMC && mc.Fn == f {
+								held := ls.HeldAtCtx(d)
+								ok = held.Holds(instMu, true)
+								detail = "locks held where the closure is deferred in " + fname(par) + ": " + held.String()
+							}
+						}
+					}
+					c.Ob("C11.writers", name+"·give-back of an unwritten number", pos(c, a.Use), ok, detail)
+					continue
+				}
 				if !allowed[name] {
 					c.Ob("C11.writers", name+"·write channelInstance.sequenceNumber", pos(c, a.Use), false, "the sequence counter is written outside nextSequenceNumber / constructor / renewal copy")
 					continue
